@@ -124,8 +124,18 @@ void harness(void)
 		VERIF_COVER(r == NULL && !g_calloc_failed);
 
 		if (r == NULL) {
+			/* refusals: allocation failure, link count overflow,
+			 * a hard link target that cannot be canonicalised, and
+			 * (since fix 0ecbfd4) owner IDs / device numbers that
+			 * do not fit the 32 bit on-disk fields - never a
+			 * silently narrowed value */
 			VERIF_ASSERT(g_calloc_failed || errno == EMLINK ||
-				     (errno == EINVAL && hard && WITH_EXTRA),
+				     (errno == EINVAL && hard && WITH_EXTRA) ||
+				     (errno == EOVERFLOW &&
+				      (de.e.uid > 0xFFFFFFFFUL ||
+				       de.e.gid > 0xFFFFFFFFUL ||
+				       ((S_ISBLK(de.e.mode) || S_ISCHR(de.e.mode)) &&
+					!hard && de.e.rdev > 0xFFFFFFFFUL))),
 				     "C11.mknode.fail_clean");
 			VERIF_ASSERT(dir->data.children == sib &&
 				     sib->next == NULL &&
